@@ -40,13 +40,13 @@ ImplParamValue(p) ==
     IF p.list THEN Join([i \in 1..Len(p.vals) |-> ImplDquote(p.vals[i])], <<COMMA>>)
     ELSE ImplDquote(p.vals[1])
 
-\* stable selection sort of parameter records by key
+\* stable selection sort of parameter records by key -- by the key AS STORED, i.e. upper-cased ("q" sorts as "Q", before "X9")
 RECURSIVE SortParams(_)
 SortParams(ps) ==
     IF Len(ps) <= 1 THEN ps
     ELSE LET m == CHOOSE i \in 1..Len(ps) :
                     \A j \in 1..Len(ps) : j # i =>
-                        (LexLess(ps[i].k, ps[j].k) \/ (ps[i].k = ps[j].k /\ i < j))
+                        (LexLess(Upper(ps[i].k), Upper(ps[j].k)) \/ (Upper(ps[i].k) = Upper(ps[j].k) /\ i < j))
              rest == [j \in 1..(Len(ps) - 1) |-> IF j < m THEN ps[j] ELSE ps[j + 1]]
          IN <<ps[m]>> \o SortParams(rest)
 
